@@ -116,7 +116,7 @@ def replay(c):
 
 def describe():
     return dict(
-        rule='every history of <= K operations per class (two passes); every raising call is compared with the pre-state on the same '
+        rule='every operation from every reachable state per class (breadth-first); every raising call is compared with the pre-state on the same '
              'object and, at the end, with a twin that received the history without the failed calls (snapshot + acceptance vector over '
              '<= 8 child names); non-trivial = histories with at least one failed call',
         functions=['xmlelement/xmlelement.py:XMLElement.add_child', 'XMLElement.remove', 'XMLElement.replace_child', 'XMLElement.__setattr__',
